@@ -282,3 +282,58 @@ example (p : Pipe) (h : p.alive = true) :
   simp [pipeDecode, h]
 
 end SV
+
+/-! ## What an acknowledgement means on the follower: the credited entry is held
+
+`pipelineRun_inv` (and `afterAE_ack_moves_up` for the plain mode) say the leader credits the follower
+only with the last entry of a request the follower acknowledged.  The theorem below closes the loop
+inside the stepped model: a follower that acknowledges a request — whichever of its writes was set
+to fail or to kill the process — durably holds every entry of the request above its snapshot, in
+the request's term.  Together: the index a leader enters into its commitment table for a follower
+is held by that follower (C05's premise for counting it towards a majority). -/
+namespace SV
+
+theorem contig_sorted (i : Nat) (l : List Entry) (h : Contig i l) : Sorted l := by
+  induction l generalizing i with
+  | nil => exact List.Pairwise.nil
+  | cons x xs ih =>
+    refine List.Pairwise.cons ?_ (ih (i + 1) h.tail)
+    intro b hb
+    obtain ⟨k, hk, rfl⟩ := List.getElem_of_mem hb
+    have h0 := h 0 (by simp)
+    have h1 := h (k + 1) (by simpa using hk)
+    simp only [List.getElem_cons_zero, List.getElem_cons_succ] at h0 h1
+    omega
+
+/-- an acknowledged AppendEntries, any follower state, any armed failure or crash: the follower's
+    store afterwards holds every sent entry above its snapshot, with the sent term -/
+theorem ack_means_held (w : World) (a : AEReq) (fl cr : Option Nat) (t l : Nat) (n : Bool)
+    (hs : Sorted w.d.log) (hes : Sorted a.entries)
+    (h : answerOf (stepEvent w (.append a fl cr)).2 = some (.append t l true n)) :
+    ∀ e ∈ a.entries, (aeVol2 w.v a).snapIdx < e.index →
+      ∃ e', getLog (stepEvent w (.append a fl cr)).1.d.log e.index = some e' ∧ e'.term = e.term := by
+  unfold stepEvent at h ⊢
+  by_cases hd : w.dead = true
+  · simp [hd, answerOf, deadObs] at h
+  · simp only [hd, Bool.false_eq_true, if_false, planOf] at h ⊢
+    unfold stepPlan at h ⊢
+    by_cases hp : (exec (aePlan w.cf w.d w.v a) fl cr).1.panic = true
+    · simp only [hp, if_true] at h
+      cases hr : restart w.cf (applyAll w.d (exec (aePlan w.cf w.d w.v a) fl cr).2) with
+      | none => simp [hr, answerOf, deadObs] at h
+      | some vc => simp [hr, answerOf] at h
+    · simp only [hp, Bool.false_eq_true, if_false] at h ⊢
+      have hsucc : isSuccess (exec (aePlan w.cf w.d w.v a) fl cr).1.resp = true := by
+        simp only [answerOf, Bool.false_eq_true, or_self, if_false] at h
+        cases hresp : (exec (aePlan w.cf w.d w.v a) fl cr).1.resp with
+        | append t' l' s' n' =>
+          rw [hresp] at h
+          simp only [Option.some.injEq, Resp.append.injEq] at h
+          simp [isSuccess, h.2.2.1]
+        | _ => rw [hresp] at h; first | (simp at h; done) | (split at h <;> simp_all)
+      obtain ⟨_, hheld, _⟩ := ae_success_log w.cf w.d w.v a fl cr hs hes hsucc
+      intro e he hsn
+      obtain ⟨e', h1, h2, _⟩ := hheld e he hsn
+      exact ⟨e', h1, h2⟩
+
+end SV
